@@ -66,6 +66,7 @@ type Contract struct {
 	Ensures  []*Clause
 	Loops    []*Clause
 	Calls    []*Clause // call-site clauses (assert / label / invariant), keyed by callee name and ordinal
+	GhostDefs []*GhostDef // ghost marks given to objects the function creates
 	Trusted  bool
 	Touches  []*Clause // objects whose fields (and nothing else of their struct types) the function may change
 	WritesTo []*Clause // writers/readers/hashes whose ghost state (and no other object's) the function may change
@@ -76,6 +77,15 @@ type Contract struct {
 	File     string
 	Line     int
 	used     bool
+}
+
+// GhostDef: `ghostdef name(obj) = value when cond` — at the function's return, if cond holds (it must imply that obj
+// was allocated by this call, so that nobody has observed its ghost state yet), the ghost component name of obj is value.
+type GhostDef struct {
+	Name             string
+	Obj, Value, Cond ast.Expr
+	Src              string
+	Line             int
 }
 
 type SpecFunc struct {
@@ -92,7 +102,8 @@ type ContractSet struct {
 }
 
 var blockRe = regexp.MustCompile(`(?s)/\*@(.*?)@\*/`)
-var clauseHead = regexp.MustCompile(`^(requires|ensures|tags|safety|loop|call|modifies|touches|writesto|trusted|noinline|inline)\b`)
+var ghostDefRe = regexp.MustCompile(`^([a-z_]+)\((.+?)\)\s*=\s*(.+?)\s+when\s+(.+)$`)
+var clauseHead = regexp.MustCompile(`^(requires|ensures|ghostdef|tags|safety|loop|call|modifies|touches|writesto|trusted|noinline|inline)\b`)
 var callSiteRe = regexp.MustCompile(`^([A-Za-z_][A-Za-z0-9_.]*)#([0-9]+)\s+(assert|label|invariant)\b\s*(.*)$`)
 
 // rewriteImp turns `a ==> b` (lowest precedence, right associative) into imp(a, b), recursively inside brackets.
@@ -332,6 +343,30 @@ func (cs *ContractSet) parseBlock(file string, line0 int, body string) {
 				}
 				c.Touches = append(c.Touches, &Clause{Kind: "touches", Src: part, Expr: ex, File: file, Line: it.line})
 			}
+		case "ghostdef":
+			m := ghostDefRe.FindStringSubmatch(rest)
+			if m == nil {
+				cs.errf(file, it.line, "malformed ghostdef (ghostdef name(obj) = value when cond): %s", rest)
+				continue
+			}
+			if _, ok := ghostSorts[m[1]]; !ok {
+				cs.errf(file, it.line, "ghostdef: unknown ghost component %s", m[1])
+				continue
+			}
+			gd := &GhostDef{Name: m[1], Src: rest, Line: it.line}
+			var err1, err2, err3 error
+			gd.Obj, err1 = parseSpecExpr(m[2])
+			gd.Value, err2 = parseSpecExpr(m[3])
+			gd.Cond, err3 = parseSpecExpr(m[4])
+			if err1 != nil || err2 != nil || err3 != nil {
+				cs.errf(file, it.line, "%s: cannot parse ghostdef %q", key, rest)
+				continue
+			}
+			if !strings.Contains(m[4], "fresh(") {
+				cs.errf(file, it.line, "%s: the condition of a ghostdef must require the object to be fresh", key)
+				continue
+			}
+			c.GhostDefs = append(c.GhostDefs, gd)
 		case "modifies":
 			c.HasMods = true
 			c.Modifies = append(c.Modifies, strings.Fields(strings.ReplaceAll(rest, ",", " "))...)
@@ -1277,6 +1312,7 @@ var ghostSorts = map[string]string{
 	"crc_last":   "Int", // identity (slid) of the byte range most recently absorbed by this hash
 	"wr_last":    "Int", // identity (slid) of the byte range most recently offered to this sink
 	"sb_len":     "Int", // length of a strings.Builder's contents
+	"mark":       "Bool", // a provenance mark a function gives to an object it creates (ghostdef)
 }
 
 // specEnv builds the environment for contract clauses of the frame's function: parameters, captured variables,
